@@ -74,3 +74,12 @@ def walk_entities(root):
             todo.extend(list(x.children))
         except Exception:
             pass
+
+
+def thorough() -> bool:
+    """is the check running in the thorough tier? (set by the property's build(); Bd tasks run in forked children that inherit it)"""
+    try:
+        from contracts import common
+        return common._TIER[0] == "thorough"
+    except Exception:
+        return False
